@@ -352,15 +352,15 @@ class IndexedSet(MutableSet):
             self.add(o)
 
     def intersection_update(self, *others):
-        "intersection_update(*others) -> discard self.difference(*others)"
-        for val in self.difference(*others):
+        "intersection_update(*others) -> discard values not in all others"
+        for val in self.difference(self.intersection(*others)):
             self.discard(val)
 
     def difference_update(self, *others):
-        "difference_update(*others) -> discard self.intersection(*others)"
+        "difference_update(*others) -> discard values in any of others"
         if self in others:
             self.clear()
-        for val in self.intersection(*others):
+        for val in self.difference(self.difference(*others)):
             self.discard(val)
 
     def symmetric_difference_update(self, other):  # note singular 'other'
